@@ -15,7 +15,7 @@ from . import hrun
 PROPERTY = 'C02'
 BOUNDS = {
     'quick': 'k<=3 parts; per part symbolic: has-code, has-want, eval/exec mode, stdout text (<=2 chars), want text (1..3 chars), repr text (<=2 chars); match relation uninterpreted (uf) and equality (eq)',
-    'thorough': 'k<=4 parts (uf, strings <=2/3) and k<=5 parts (eq, strings <=2)',
+    'thorough': 'k<=4 parts (eq strings <=2/3, uf strings <=1/2) and k=3 with strings <=3/4 (uf)',
 }
 OUTSIDE = 'how the parser attaches wants to statements (C13/C01); what the match relation is (C05/C06); directives (C04); exceptions (C03)'
 ASSUMPTIONS = ['a part list as produced by the parser: want_lines of a part are non-empty strings',
@@ -29,7 +29,7 @@ def jobs(tier):
     if tier == 'quick':
         cfgs = [('uf', 3, 2, 3), ('eq', 3, 2, 3), ('uf', 2, 3, 3)]
     else:
-        cfgs = [('uf', 4, 2, 3), ('eq', 4, 2, 3), ('eq', 5, 2, 2), ('uf', 3, 3, 4)]
+        cfgs = [('uf', 4, 1, 2), ('eq', 4, 2, 3), ('uf', 3, 3, 4)]
     for variant, k, ocap, wcap in cfgs:
         out.append({'ob': 'verdict_%s_k%d' % (variant, k), 'variant': variant, 'k': k, 'ocap': ocap, 'wcap': wcap,
                     'bounds': 'k=%d parts, |stdout|,|repr|<=%d, |want|<=%d, match=%s' % (k, ocap, wcap, variant),
